@@ -364,3 +364,106 @@ Section Exact.
       apply (merge_conflict_sound _ _ _ X M).
   Qed.
 End Exact.
+
+(* ---------- the order hypothesis from hypotheses on the client and the comparator ---------- *)
+Section ClientOrder.
+  Variable c_versions : bytes -> res (list vkey).
+  Variable c_matching : vkey -> res (list vkey).
+  Variable has_pre : bytes -> bool.
+  Variable constraint_ok : bytes -> bool.
+  Variable match_pre : bytes -> bytes -> bool.
+  Variable ver_lt : bytes -> bytes -> bool.
+  Variable root : vkey.
+  Variable lt : vkey -> vkey -> Prop.
+  Hypothesis lt_irrefl : forall a, ~ lt a a.
+  Hypothesis lt_trans : forall a b c, lt a b -> lt b c -> lt a c.
+
+  (* insertion sort yields a strictly ascending list when the comparator decides lt, any two
+     different elements are comparable and no element occurs twice *)
+  Lemma ins_rev_desc (less : vkey -> vkey -> bool) x : forall rl,
+    (forall y, In y rl -> (less x y = true <-> lt x y) /\ (x = y \/ lt x y \/ lt y x)) ->
+    ~ In x rl -> StronglySorted (fun a b => lt b a) rl ->
+    StronglySorted (fun a b => lt b a) (ins_rev less x rl).
+  Proof.
+    induction rl as [|y r IH]; simpl; intros H Hn S.
+    - constructor; constructor.
+    - inversion S as [|? ? Sr F]; subst. rewrite Forall_forall in F.
+      destruct (H y (or_introl eq_refl)) as [D C].
+      destruct (less x y) eqn:L.
+      + assert (Lxy : lt x y) by (apply D; auto).
+        constructor.
+        * apply IH; auto; intros z Hz; apply H; right; auto.
+        * rewrite Forall_forall. intros z Hz. apply ins_rev_In in Hz as [E|Hz]; [subst; auto | auto].
+      + constructor; [constructor; auto; rewrite Forall_forall; auto|].
+        assert (Lyx : lt y x).
+        { destruct C as [E|[C|C]]; auto.
+          - subst. exfalso. apply Hn. left; auto.
+          - apply D in C. congruence. }
+        rewrite Forall_forall. intros z [E|Hz]; [subst; auto|]. eapply lt_trans; eauto.
+  Qed.
+
+  Lemma rev_desc_asc (l : list vkey) :
+    StronglySorted (fun a b => lt b a) l -> StronglySorted lt (rev l).
+  Proof.
+    induction l as [|x l IH]; simpl; intros S; [constructor|].
+    inversion S as [|? ? Sl F]; subst. rewrite Forall_forall in F.
+    assert (G : forall m y, StronglySorted lt m -> (forall z, In z m -> lt z y) -> StronglySorted lt (m ++ [y])).
+    { induction m as [|a m IHm]; simpl; intros y Sm Hy; [constructor; constructor|].
+      inversion Sm as [|? ? Sm' Fm]; subst. constructor; [apply IHm; auto|].
+      rewrite Forall_forall in *. intros z Hz. apply in_app_or in Hz as [Hz|[E|[]]]; [auto | subst; auto]. }
+    apply G; auto. intros z Hz. apply in_rev in Hz. auto.
+  Qed.
+
+  Lemma isort_sorted (less : vkey -> vkey -> bool) l :
+    (forall a b, In a l -> In b l -> (less a b = true <-> lt a b) /\ (a = b \/ lt a b \/ lt b a)) ->
+    NoDup l -> StronglySorted lt (isort less l).
+  Proof.
+    intros H ND. unfold isort. apply rev_desc_asc.
+    assert (G : forall l' acc, incl l' l -> incl acc l -> NoDup l' -> (forall x, In x l' -> ~ In x acc) ->
+                StronglySorted (fun a b => lt b a) acc ->
+                StronglySorted (fun a b => lt b a) (fold_left (fun acc x => ins_rev less x acc) l' acc)).
+    { induction l' as [|x l' IH]; simpl; intros acc I1 I2 N D S; auto.
+      inversion N as [|? ? Nx N']; subst.
+      apply IH.
+      - intros z Hz; apply I1; right; auto.
+      - intros z Hz. apply ins_rev_In in Hz as [E|Hz]; [subst; apply I1; left; auto | auto].
+      - auto.
+      - intros z Hz Hin. apply ins_rev_In in Hin as [E|Hin]; [subst; contradiction | apply (D z); auto].
+      - apply ins_rev_desc; [intros y Hy; apply H; [apply I1; left; auto | auto] | apply D; left; auto | exact S]. }
+    apply G; [apply incl_refl | intros z [] | exact ND | intros x _ [] | constructor].
+  Qed.
+
+  (* what a client has to guarantee: MatchingVersions answers strictly ascending; Versions answers
+     without repetition, on which the comparator decides the same order and any two are comparable *)
+  Hypothesis Hm : forall k l, c_matching k = Ok l -> StronglySorted lt l.
+  Hypothesis Hv : forall p l, c_versions p = Ok l ->
+    NoDup l /\ forall a b, In a l -> In b l ->
+      (ver_lt (vk_ver a) (vk_ver b) = true <-> lt a b) /\ (a = b \/ lt a b \/ lt b a).
+
+  Lemma mv_sorted_client rq l : matching_versions c_matching root rq = Ok l -> StronglySorted lt l.
+  Proof.
+    unfold matching_versions. intros H.
+    destruct (client_err (c_matching rq)) as [mvs| | |] eqn:C; cbn [bind] in H; try discriminate.
+    apply client_err_Ok in C.
+    destruct (negb _).
+    - inversion H; subst. eauto.
+    - destruct (vk_mem root mvs); inversion H; subst; repeat constructor.
+  Qed.
+
+  Theorem gm_sorted_client pre rq l :
+    gm c_versions c_matching has_pre constraint_ok match_pre ver_lt root pre rq = Ok l -> StronglySorted lt l.
+  Proof.
+    unfold gm. destruct pre; [|apply mv_sorted_client].
+    unfold matching_versions_pre. destruct (has_pre _); [apply mv_sorted_client|].
+    intros H.
+    destruct (client_err (c_versions (vk_name rq))) as [vs| | |] eqn:C; cbn [bind] in H; try discriminate.
+    apply client_err_Ok in C. destruct (Hv _ _ C) as [ND Hc].
+    destruct (negb _); [inversion H; subst; constructor|].
+    destruct (filter_slice _ _ vs) as [kept| | |] eqn:F; cbn [bind] in H; try discriminate.
+    inversion H; subst l. clear H.
+    destruct (filter_slice_spec _ _ _ _ (le_n _) F) as [I0 I1].
+    apply isort_sorted; auto.
+    - intros a b Ha Hb. apply Hc; [apply I0 in Ha | apply I0 in Hb]; tauto.
+    - specialize (I1 _ (fun x => x)). rewrite !map_id in I1. auto.
+  Qed.
+End ClientOrder.
